@@ -31,6 +31,13 @@ theorem WT_ptr_cases (n : Node) (v : Val) (h : WT n v = true) :
     refine ⟨?_, by simp, by simp⟩
     cases n <;> simp_all [WT, Node.ptr, Node.info]
 
+theorem withPtr_false_of_not_ptr (n : Node) (h : n.ptr = false) : n.withPtr false = n := by
+  cases n with
+  | basic i => cases i; simp_all [Node.withPtr, Node.ptr, Node.info]
+  | struct i c => cases i; simp_all [Node.withPtr, Node.ptr, Node.info]
+  | map i k v => cases i; simp_all [Node.withPtr, Node.ptr, Node.info]
+  | slice i e => cases i; simp_all [Node.withPtr, Node.ptr, Node.info]
+
 /-- The value a node's variable refers to after the emitted nil guard and dereference. -/
 theorem WT_deref (n : Node) (v : Val) (h : WT n v = true) (hnn : (n.ptr && v.isNilPtr) = false) :
     WT (n.withPtr false) (derefIf n.ptr v) = true := by
@@ -38,8 +45,7 @@ theorem WT_deref (n : Node) (v : Val) (h : WT n v = true) (hnn : (n.ptr && v.isN
   · rcases hv with hv | ⟨w, hv, hw⟩
     · subst hv; simp [hp, Val.isNilPtr] at hnn
     · subst hv; simp [derefIf, hp, hw]
-  · have : n.withPtr false = n := by
-      cases n <;> simp_all [Node.withPtr, Node.ptr, Node.info]
+  · have : n.withPtr false = n := withPtr_false_of_not_ptr n hp
     simp [derefIf, hp, this, h]
 
 theorem withPtr_struct (i : Info) (c : List Node) (b : Bool) : (Node.struct i c).withPtr b = .struct { i with ptr := b } c := rfl
@@ -54,11 +60,21 @@ theorem WT_struct_inv (i : Info) (chld : List Node) (w : Val) (hi : i.ptr = fals
 theorem WT_map_inv (i : Info) (k mv : Node) (w : Val) (hi : i.ptr = false)
     (h : WT (.map i k mv) w = true) :
     ∃ nl ks vs, w = .map nl ks vs ∧ ks.length = vs.length ∧ WTall k ks = true ∧ WTall mv vs = true := by
-  cases w <;> simp_all [WT, Node.ptr, Node.info]
+  cases w with
+  | map nl ks vs =>
+    refine ⟨nl, ks, vs, rfl, ?_⟩
+    simp [WT, hi] at h
+    exact ⟨h.1.1, h.1.2, h.2⟩
+  | _ => simp_all [WT, Node.ptr, Node.info]
 
 theorem WT_slice_inv (i : Info) (e : Node) (w : Val) (hi : i.ptr = false) (hb : (i.typn == "[]byte") = false)
     (h : WT (.slice i e) w = true) : ∃ nl es c, w = .slice nl es c ∧ WTall e es = true := by
-  cases w <;> simp_all [WT, Node.ptr, Node.info]
+  cases w with
+  | slice nl es c =>
+    refine ⟨nl, es, c, rfl, ?_⟩
+    simp [WT, hi] at h
+    exact h.2
+  | _ => simp_all [WT, Node.ptr, Node.info]
 
 theorem findField_WT (chld : List Node) (fs : List Val) (name : Bytes) (ch : Node) (fv : Val)
     (h : WTs chld fs = true) (hf : findField chld fs name = some (ch, fv)) : WT ch fv = true ∧ ch ∈ chld := by
@@ -107,5 +123,65 @@ theorem nth?_some_of_lt (es : List Val) (i : Nat) (h : i < es.length) : ∃ x, n
     cases i with
     | zero => exact ⟨v, rfl⟩
     | succ j => simp [nth?]; exact ih j (by simpa using h)
+
+
+
+theorem wtScalar_zero (k : Kind) : wtScalar k (zeroOfKind k) = true := by
+  cases k with
+  | bool => rfl
+  | sint b =>
+    simp only [zeroOfKind, wtScalar, inRangeS, Bool.and_eq_true, decide_eq_true_eq]
+    have : (0 : Int) < (2 : Int) ^ (b - 1) := Int.pow_pos (by decide)
+    omega
+  | uint b =>
+    simp only [zeroOfKind, wtScalar, inRangeU, decide_eq_true_eq]
+    exact Nat.pow_pos (by decide)
+  | float b => rfl
+  | string => rfl
+
+mutual
+/-- The zero value of a well-formed type is well-typed. -/
+theorem WT_zeroVal : ∀ (n : Node), NodeWF n = true → WT n (zeroVal n) = true
+  | .basic i, h => by
+    simp only [NodeWF, Bool.and_eq_true] at h
+    unfold zeroVal
+    by_cases hp : i.ptr = true
+    · simp [hp, WT_nilptr, Node.ptr, Node.info]
+    · have hp' : i.ptr = false := by simpa using hp
+      simp only [hp', Bool.false_eq_true, if_false]
+      cases hk : kindOfName i.typu with
+      | none => simp [hk] at h
+      | some k =>
+        have := wtScalar_zero k
+        cases k <;> simp_all [WT, zeroOfKind, Node.ptr, Node.info]
+  | .struct i ch, h => by
+    simp only [NodeWF] at h
+    unfold zeroVal
+    by_cases hp : i.ptr = true
+    · simp [hp, WT_nilptr, Node.ptr, Node.info]
+    · have hp' : i.ptr = false := by simpa using hp
+      simp [hp', WT, WTs_zeroVals ch h]
+  | .map i k v, _ => by
+    unfold zeroVal
+    by_cases hp : i.ptr = true
+    · simp [hp, WT_nilptr, Node.ptr, Node.info]
+    · have hp' : i.ptr = false := by simpa using hp
+      simp [hp', WT, WTall]
+  | .slice i e, _ => by
+    unfold zeroVal
+    by_cases hp : i.ptr = true
+    · simp [hp, WT_nilptr, Node.ptr, Node.info]
+    · have hp' : i.ptr = false := by simpa using hp
+      by_cases hb : (i.typn == "[]byte") = true
+      · simp [hp', hb, WT]
+      · have hb' : (i.typn == "[]byte") = false := by simpa using hb
+        simp [hp', hb', WT, WTall]
+        simpa using hb'
+theorem WTs_zeroVals : ∀ (ns : List Node), NodeWFs ns = true → WTs ns (zeroVals ns) = true
+  | [], _ => by simp [zeroVals, WTs]
+  | n :: ns, h => by
+    simp only [NodeWFs, Bool.and_eq_true] at h
+    simp [zeroVals, WTs, WT_zeroVal n h.1, WTs_zeroVals ns h.2]
+end
 
 end Inspector
